@@ -96,6 +96,8 @@ type ipamMon struct {
 	releases  int
 	drifted   map[string]bool // addresses an out-of-band cloud change took away
 	createdOK map[string]bool // interfaces whose create call returned the id to the controller
+	delFailed map[string]bool // ... whose delete call failed
+	writeLost map[string]bool // ... that no stored record named when a write of the Node record failed by injection
 	cl        client.Client
 }
 
@@ -424,6 +426,19 @@ func (m *ipamMon) observeRuntime(before, after *v1beta1.NodeRuntime) {
 	}
 }
 
+// markWriteLost (mu held): a write of the Node record is about to fail; interfaces the controller knows of and the
+// stored record does not name lose their only trace if the controller does not keep them elsewhere.
+func (m *ipamMon) markWriteLost() {
+	if m.writeLost == nil {
+		m.writeLost = map[string]bool{}
+	}
+	for id := range m.createdOK {
+		if m.lastCR == nil || m.lastCR.Status.NetworkInterfaces[id] == nil {
+			m.writeLost[id] = true
+		}
+	}
+}
+
 // ---- cloud listener ----
 
 func (m *ipamMon) OnInvoke(c *cloudsim.CtrlCloud, call *cloudsim.CCall) {
@@ -526,6 +541,11 @@ func (m *ipamMon) OnReturn(c *cloudsim.CtrlCloud, call *cloudsim.CCall) {
 	case "DeleteNetworkInterface":
 		if e, ok := c.ENIs[call.ENI]; ok && e.Deleted {
 			delete(m.creating, call.ENI)
+		} else if call.Err != "" {
+			if m.delFailed == nil {
+				m.delFailed = map[string]bool{}
+			}
+			m.delFailed[call.ENI] = true
 		}
 	}
 }
@@ -669,6 +689,9 @@ func newIpamHist(c *ctxT, prop string, hid int, cfg ipamCfg, seed int64) *ipamHi
 				if h.apiSeen[kind] == h.apiAt[kind] {
 					h.mon.mu.Lock()
 					h.mon.ev("api: injected %s of %s #%d on %s", h.apiAtKind, verb, h.apiSeen[kind], kind)
+					if kind == "node" {
+						h.mon.markWriteLost()
+					}
 					h.mon.mu.Unlock()
 					if h.apiAtKind == "conflict" {
 						return apierrors.NewConflict(schema.GroupResource{Group: "network.alibabacloud.com", Resource: kind}, "node-1", fmt.Errorf("injected conflict"))
@@ -680,6 +703,9 @@ func newIpamHist(c *ctxT, prop string, hid int, cfg ipamCfg, seed int64) *ipamHi
 				h.apiFlt[kind]--
 				h.mon.mu.Lock()
 				h.mon.ev("api: injected failure of %s on %s", verb, kind)
+				if kind == "node" {
+					h.mon.markWriteLost()
+				}
 				h.mon.mu.Unlock()
 				if h.rng.Intn(2) == 0 {
 					return apierrors.NewConflict(schema.GroupResource{Group: "network.alibabacloud.com", Resource: kind}, "node-1", fmt.Errorf("injected conflict"))
